@@ -48,6 +48,8 @@ type PushParams struct {
 	// file-named target: every pusher writes under one file name, one after the other
 	// (a failed push followed by another push of the same name)
 	SameName bool `json:"same_name,omitempty"`
+	// SameNameConcurrent: the pushers of one name run as concurrent tasks instead
+	SameNameConcurrent bool `json:"same_name_concurrent,omitempty"`
 	// limited target: push size limit (0 = 1 MiB)
 	Limit int64 `json:"limit,omitempty"`
 }
@@ -162,6 +164,10 @@ func (p *pushProp) Gen(r *Rand, tier string, idx int) any {
 		}
 		for i := range pp.Pushers {
 			pp.Pushers[i].ForDigestOf = -1
+		}
+		pp.SameNameConcurrent = r.Bool()
+		if pp.SameNameConcurrent && pp.Watch == 0 {
+			pp.Watch = r.Range(5, 40)
 		}
 	}
 	return pp
@@ -532,7 +538,7 @@ func (p *pushProp) run(rc *RunCtx, pp *PushParams, info *RunInfo) *Verdict {
 					errs[i] = st.Push(ctx, descs[i], rd)
 				}
 			}
-			if pp.SameName {
+			if pp.SameName && !pp.SameNameConcurrent {
 				seq = append(seq, body) // one after the other, in one task
 				continue
 			}
@@ -541,7 +547,7 @@ func (p *pushProp) run(rc *RunCtx, pp *PushParams, info *RunInfo) *Verdict {
 				body()
 			})
 		}
-		if pp.SameName {
+		if pp.SameName && !pp.SameNameConcurrent {
 			simrt.Go(func() {
 				defer func() {
 					for range pp.Pushers {
